@@ -41,12 +41,12 @@ add("C14", "exploration",
     "property-based testing (proptest) against a reference implementation (note walker)", "DESIGN.md §5 C14")
 
 add("C19", "exploration",
-    "Exhaustive enumeration of finite domains against differential references: all ~1175 exported integer constants (extracted from src/abi.rs by build.rs) vs a table derived from glibc <elf.h>, Linux uapi headers and LLVM 14 BinaryFormat with the C/C++ compiler evaluating the macros; size_of/offset_of! of every field of the 16 #[repr(C)] structs vs offsetof on <elf.h>; every to_str helper over u8/u16 AND u32 exhaustively (4 x 2^32 calls in 3-4 s) and, for i64, over all constant values, their neighbours, negations, high-word variants and pseudo-random values; p_flags_to_string's numeric fallback. Enumeration is the right level because the domains are finite lists.",
+    "Exhaustive enumeration of finite domains against differential references: all ~1175 exported integer constants (extracted from src/abi.rs by build.rs) vs a table derived from glibc <elf.h>, Linux uapi headers and LLVM 14 BinaryFormat with the C/C++ compiler evaluating the macros, plus a hand-transcribed table (from the ABI documents) for 44 names that no installed header defines; size_of/offset_of! of every field of the 16 #[repr(C)] structs vs offsetof on <elf.h>; every to_str helper over u8/u16 AND u32 exhaustively (4 x 2^32 calls in 3-4 s) and, for i64, over all constant values, their neighbours, negations, high-word variants and pseudo-random values; p_flags_to_string's numeric fallback. Enumeration is the right level because the domains are finite lists.",
     "Trusts the installed reference headers (names on which they disagree or which none defines are counted, not judged) and a 9-entry spelling alias table.",
     "exhaustive enumeration with a differential oracle (reference headers evaluated by the C compiler)", "DESIGN.md §5 C19")
 
 add("C01", "exploration",
-    "Seeded proptest search over (input bytes x walker arguments): structured rich files with boundary-value header overrides and body corruption, linker-produced samples with field-level overrides/splices/truncations, raw bytes; an allocation-free walker calls every public entry point of the no_std core, incl. the stand-alone parsers on arbitrary sub-slices with offsets up to usize::MAX, alignments up to 2^64-1 and counts up to u64::MAX, under overflow checks and debug assertions; parse_ident is enumerated over every buffer length 0..20. Oracle = no panic (validity monitor). The thorough tier adds a coverage-guided libFuzzer campaign over the same oracle.",
+    "Seeded proptest search over (input bytes x walker arguments): structured rich files with boundary-value header overrides and body corruption, linker-produced samples with field-level overrides/splices/truncations, raw bytes; an allocation-free walker calls every public entry point of the no_std core, incl. the stand-alone parsers on arbitrary sub-slices with offsets up to usize::MAX, alignments up to 2^64-1 and counts up to u64::MAX, under overflow checks and debug assertions; parse_ident is enumerated over every buffer length 0..20. Oracle = no panic (validity monitor); the walker also formats every public type with Debug, drives every iterator through the std adaptors and through direct calls on the concrete iterator types, and asks by-name queries built from the file's own names. The thorough tier adds a coverage-guided libFuzzer campaign over the same oracle.",
     "A panic is caught with catch_unwind; an abort would end the checker with exit 2. 64-bit host only.",
     "property-based testing (proptest) + coverage-guided fuzzing (libFuzzer) with a no-panic monitor; exhaustive enumeration of short ident buffers", "DESIGN.md §5 C01")
 add("C06", "exploration",
@@ -55,42 +55,42 @@ add("C06", "exploration",
     "property-based testing (proptest) with an allocation-counting monitor; exhaustive configuration enumeration with the compiler as oracle", "DESIGN.md §5 C06")
 
 add("C16", "exploration",
-    "Seeded proptest search over adversarial link structures built on purpose (SysV chain cycles of every length, GNU chains without stop bit, version records with zero/self/overlapping/out-of-range/32-bit-wrapping links and absurd counts, partial trailing records, iterator adaptors on advanced iterators, Debug formatting of cyclic tables) and over the corrupted-file domain with every iterator driven to bound+1 items; oracle = item-count bounds (one item per input byte, at most the declared count) plus a per-case watchdog (15 s / 60 s) whose expiry is the violation. The thorough tier adds a libFuzzer campaign with -timeout.",
+    "Seeded proptest search over adversarial link structures built on purpose (SysV chain cycles of every length, GNU chains without stop bit, version records with zero/self/overlapping/out-of-range/32-bit-wrapping links and absurd counts, partial trailing records, iterator adaptors on advanced iterators, Debug formatting of cyclic tables) and over the corrupted-file domain with every iterator driven to bound+1 items, plus stream queries behind readers that over-report their length, were cut after being measured, or deliver nothing / fail from some call on; oracle = item-count bounds (one item per input byte, at most the declared count) plus a per-case watchdog (15 s / 60 s) (15 s / 20 s / 60 s) whose expiry is the violation. The thorough tier adds a libFuzzer campaign with -timeout.",
     "Liveness-flavoured property decided by a watchdog: a hang is detected, termination is not proved; limits sit far above the worst legitimate walk on the generated sizes.",
     "property-based testing (proptest) with item-count invariants and a hang watchdog; coverage-guided fuzzing (libFuzzer) in the thorough tier", "DESIGN.md §5 C16")
 
 add("C10", "exploration",
-    "Exhaustive enumeration of all 256 values of EI_DATA, EI_CLASS and EI_VERSION and of the single-byte magic corruptions on 8 base files x 4 specs x 3 entry points with the expected error (kind and carried bytes) as oracle; plus seeded proptest search over generated files comparing the full query-digest vector under AnyEndian with the matching fixed spec (differential oracle) and requiring the other fixed spec to reject.",
+    "Exhaustive enumeration of all 256 values of EI_DATA, EI_CLASS and EI_VERSION and of the single-byte magic corruptions on 8 base files x 4 specs x 3 entry points with the expected error (kind and carried bytes) as oracle; plus seeded proptest search over generated files comparing the full query-digest vector under AnyEndian with the matching fixed spec (differential oracle) and requiring the other fixed spec to reject; UnsupportedElfEndianness may only ever come from an EI_DATA byte outside the spec's set, whatever the rest of the header holds.",
     "Combinations with more than one defect are skipped (counted); little-endian host for the NativeEndian clause.",
     "exhaustive enumeration with an expected-error oracle + differential property-based testing (proptest) AnyEndian vs fixed spec", "DESIGN.md §5 C10")
 add("C18", "fault_enumeration",
-    "Crash points = prefix lengths: for every generated base file (seeded proptest choice sequences; tables placed early so most prefixes still open) EVERY prefix length is enumerated for files up to 4 KiB (256 boundary+random lengths above), both parsers; metamorphic oracle: each Ok answer of the fixed query plan on the prefix equals the complete file's answer (also parse_ident on every prefix of the first 20 bytes), and appending arbitrary bytes changes no Ok answer; a sixth of the base files use extended numbering or declare a record-structured section smaller than its body. The 10 linker-produced samples are covered with sampled lengths.",
+    "Crash points = prefix lengths: for every generated base file (seeded proptest choice sequences; tables placed early so most prefixes still open) EVERY prefix length is enumerated for files up to 4 KiB (256 boundary+random lengths above), both parsers; metamorphic oracle: each Ok answer of the fixed query plan on the prefix equals the complete file's answer (also parse_ident on every prefix of the first 20 bytes, SectionHeader/ProgramHeader::parse_at at the first entries of both tables on every prefix, and the stream parser behind a reader that cannot seek from its end), and appending arbitrary bytes changes no Ok answer; a sixth of the base files use extended numbering or declare a record-structured section smaller than its body. The 10 linker-produced samples are covered with sampled lengths.",
     "Digests compare content, not error kinds; the extension clause is checked in its sound direction only.",
     "crash-point (prefix) enumeration over property-based generated files with a metamorphic oracle (prefix/extension vs whole file)", "DESIGN.md §5 C18")
 
 add("C03", "exploration",
-    "Seeded proptest search over generated files whose section/segment ranges are drawn from boundary pairs (inside, zero-length at 0/mid/EOF/EOF+1, ending at EOF-1/EOF/EOF+1, far outside, overflowing, sharing endpoints, whole file, raw 64-bit), p_memsz != p_filesz always, NOBITS/compressed flags on arbitrary ranges, fabricated headers; the ground truth is the builder's header values; every returned &[u8]/&str (section/segment data, compressed payloads, string-table entries incl. compressed string tables, note names/descriptors/build-ids, section names, symbol names, version requirement/definition strings) is checked by pointer and length against the designated range.",
+    "Seeded proptest search over generated files whose section/segment ranges are drawn from boundary pairs (inside, zero-length at 0/mid/EOF/EOF+1, ending at EOF-1/EOF/EOF+1, far outside, overflowing, sharing endpoints, whole file, raw 64-bit), p_memsz != p_filesz always, NOBITS/compressed flags on arbitrary ranges, fabricated headers with arbitrary sh_entsize / ch_type / p_type incl. PT_NULL / p_vaddr / p_align, note alignments incl. 3, 5, 6, 12; the ground truth is the builder's header values; every returned &[u8]/&str (section/segment data, compressed payloads, string-table entries incl. compressed string tables, note names/descriptors/build-ids, section names, symbol names, version requirement/definition strings) is checked by pointer and length against the designated range.",
     "Trusts the file builder's ground truth and the NUL-scan / note reference walkers for sub-ranges.",
     "property-based testing (proptest) with an inverse oracle (file builder ground truth) and pointer-identity checks", "DESIGN.md §5 C03")
 add("C05", "exploration",
-    "Seeded proptest search over generated files with section counts crossing 0xff00 and program header counts crossing 0xffff (real 4 MiB tables and 'unnecessary' uses of the shdr[0] escape hatches), shstrndx via SHN_XINDEX, tables anywhere incl. touching EOF or cut short, every wrong entsize, offsets forced to 0, wrong sh_entsize on symtab/dynsym/versym/dynamic; oracle = the statement's rule evaluated by an independent reader on the bytes written; both parsers.",
+    "Seeded proptest search over generated files with section counts crossing 0xff00 and program header counts crossing 0xffff (real 4 MiB tables and 'unnecessary' uses of the shdr[0] escape hatches), shstrndx via SHN_XINDEX, tables anywhere incl. touching EOF or cut short, every wrong entsize, offsets forced to 0, wrong sh_entsize on symtab/dynsym/versym/dynamic (also through find_common_data, also with a usable PT_DYNAMIC next to the damaged section), any declared count through extended numbering (incl. counts whose product with the entry size wraps around 2^64), streams that cannot seek from their end; oracle = the statement's rule evaluated by an independent reader on the bytes written; both parsers.",
     "Trusts the independent header reader and the builder; PN_XNUM without a section table is skipped as outside the statement.",
     "property-based testing (proptest) with an inverse oracle (ground-truth layout) and an executable statement of the location rule", "DESIGN.md §5 C05")
 add("C20", "exploration",
-    "Seeded proptest search over generated objects (each kind present/absent independently, shuffled section order, name pool of prefixes/suffixes/duplicates/non-UTF-8/empty names, sh_link to any section, stripped twins); differential oracle between access paths (find_common_data vs targeted accessors vs tables rebuilt from section_data, by-name lookup vs manual scan, typed views vs encoded model, .dynamic vs PT_DYNAMIC of the twin), both parsers.",
+    "Seeded proptest search over generated objects (each kind present/absent independently, shuffled section order, name pool of prefixes/suffixes/duplicates/non-UTF-8/empty names, sh_link to any section, stripped twins, arbitrary flags and sh_entsize on filler sections, compressed relocation sections, dynamic tables that describe a symbol table via DT_SYMTAB/DT_STRTAB inside a PT_LOAD, rarely > 0xffff sections); a second sub-check damages one or two header fields of the common sections and requires the one-pass discovery and the targeted accessors to refuse or accept together; differential oracle between access paths (find_common_data vs targeted accessors vs tables rebuilt from section_data, by-name lookup vs manual scan, typed views vs encoded model, .dynamic vs PT_DYNAMIC of the twin), both parsers.",
     "Trusts the object builder's model (encoded entries) and the reference walkers; wrong-type views only need to be refused.",
     "differential property-based testing (proptest) between alternative access paths, with encoder ground truth", "DESIGN.md §5 C20")
 
 add("C07", "exploration",
-    "Seeded proptest search over (file bytes: generated/corrupted/sample/raw) x (operation histories of up to 40 stream calls with repetition, incl. fabricated headers whose ranges share a start or an end and recur) x (readers delivering 1..n-byte chunks and Interrupted errors, handed over with the cursor at 0 or elsewhere, in a fifth of the cases failing once with a transient hard error); differential oracle = the slice parser on the same bytes (open coincidence, identical headers, per-op digest equality, exact Ok/Err coincidence for the calls the statement lists, every earlier op re-asked at random). The thorough tier adds a libFuzzer campaign over the same oracle.",
+    "Seeded proptest search over (file bytes: generated/corrupted/sample/raw) x (operation histories of up to 40 stream calls with repetition, incl. fabricated headers whose ranges share a start or an end and recur) x (readers delivering 1..n-byte chunks and Interrupted errors, handed over with the cursor at 0 or elsewhere, in a fifth of the cases failing once with a transient hard error; by-name queries derived from the file's own name table incl. queries with an interior NUL; one generated file in 512 with about 0xff00 filler sections in front); differential oracle = the slice parser on the same bytes (open coincidence, identical headers, per-op digest equality, exact Ok/Err coincidence for the calls the statement lists, every earlier op re-asked at random). The thorough tier adds a libFuzzer campaign over the same oracle.",
     "Scope exactly as the statement: ops on SHF_COMPRESSED sections and files with a present-but-empty section table are skipped and counted.",
     "differential, history-based property testing (proptest; ops as vec + interpreter) stream parser vs slice parser; libFuzzer in the thorough tier", "DESIGN.md §5 C07")
 add("C08", "exploration",
-    "Seeded proptest search over stream contents whose headers claim sizes/counts/offsets from the boundary table (small files claiming up to 2^64-1) and layouts with up to 1 MiB of padding, x call histories of up to 40 (8%: 60-150) calls, x chunking/interrupting readers (a fifth failing once with a transient error); validity monitors: no panic, counting allocator window (every single request <= 8*len+4096 (+64 bytes per call made, for the cache's own bookkeeping of caller-chosen ranges); absurd requests park the thread and fail the case), instrumented Read+Seek log (bytes read by open within {ident, header, shdr[0], tables}; by each call within the ranges it designates).",
+    "Seeded proptest search over stream contents whose headers claim sizes/counts/offsets from the boundary table (small files claiming up to 2^64-1) and layouts with up to 1 MiB of padding, x call histories of up to 40 (8%: 60-150) calls, x chunking/interrupting readers (a fifth failing once with a transient error, a sixteenth unable to seek from their end); validity monitors: no panic, counting allocator window (every single request <= 8*len+4096 (+64 bytes per call made, for the cache's own bookkeeping of caller-chosen ranges); absurd requests park the thread and fail the case), instrumented Read+Seek log (bytes read by open within {ident, header, shdr[0], tables}; by each call within the ranges it designates).",
     "Trusts the allocator shim and the independent header reader that computes the designated ranges; the version-query allowance is an over-approximation (all version sections).",
     "property-based testing (proptest) with resource monitors (allocation-size bound, read-log containment)", "DESIGN.md §5 C08")
 add("C17", "fault_enumeration",
-    "For each generated base case (file x call history x reader behaviour) the fault-free run counts the I/O calls, then a fault is injected at EVERY single I/O call index for each of error/premature-EOF x transient/permanent plus one error of another io::ErrorKind (Unsupported, WouldBlock, UnexpectedEof, TimedOut, ...) per index (exhaustive single-fault enumeration), plus random multi-fault schedules with short reads; metamorphic oracle = the fault-free run: the call during which a fault fired returns Err, every other call returns Err or the fault-free answer.",
+    "For each generated base case (file x call history x reader behaviour) the fault-free run counts the I/O calls, then a fault is injected at EVERY single I/O call index for each of error/premature-EOF x transient/permanent plus one error of another io::ErrorKind (Unsupported, WouldBlock, UnexpectedEof, TimedOut, ...) per index (exhaustive single-fault enumeration), plus streams on which every SeekFrom::End fails, plus random multi-fault schedules with short reads; a call that has not returned after 60 s counts as not having returned an error; metamorphic oracle = the fault-free run: the call during which a fault fired returns Err, every other call returns Err or the fault-free answer.",
     "Trusts the fault-injecting reader; Interrupted and short reads are legal behaviour, not failures.",
     "exhaustive single-fault injection over property-based generated histories, metamorphic oracle (fault-free run)", "DESIGN.md §5 C17")
 
